@@ -231,6 +231,12 @@ func buildErrClass(p *dsl.Program, e *xlang.BuildError) string {
 			}
 		}
 	}
+	// compilers append suggestions that vary with the program's identifiers
+	for _, cut := range []string{"; did you mean", ". Did you mean", " Did you mean", "; use "} {
+		if i := strings.Index(line, cut); i > 0 {
+			line = line[:i]
+		}
+	}
 	line = pathRe.ReplaceAllString(line, "")
 	// the program's identifiers in every case conversion
 	var names []string
@@ -314,7 +320,12 @@ func genXCase(rt *rapid.T, cfg dsl.GenCfg, nmsgs int, vc dsl.ValCfg, suffixes bo
 		if i%3 == 2 && len(p.Packets) > 1 {
 			pk = p.Packets[rapid.IntRange(0, len(p.Packets)-1).Draw(rt, fmt.Sprintf("msg%d_packet", i))]
 		}
-		m := xMsg{Packet: pk.Name, Val: dsl.GenMessage(rt, p, pk, vc, fmt.Sprintf("m%d", i))}
+		vci := vc
+		if i > 0 {
+			vci.KeyPick = i // message 0 draws its key, the others walk through the table from the last key backwards
+			vci.KeyPick = 1000 - i
+		}
+		m := xMsg{Packet: pk.Name, Val: dsl.GenMessage(rt, p, pk, vci, fmt.Sprintf("m%d", i))}
 		if !lenFits(p, pk, m.Val) {
 			// the payload must fit the length-of field's width (C04's domain): retry small, else skip
 			m.Val = dsl.GenMessage(rt, p, pk, dsl.ValCfg{MaxList: 1, MaxStr: 3}, fmt.Sprintf("m%ds", i))
